@@ -112,6 +112,32 @@ Proof.
     [ intros x y Hxy L; apply Hl; auto | intros y Hy W; eapply Hw; eauto | intros H; eapply Hn; eauto | exact B ].
 Qed.
 
+Lemma adj_head x h r : NoDup (h :: r) -> ~ adj x h (h :: r).
+Proof.
+  intros Hn H. inversion Hn as [|? ? Hh _]; subst. cbn in H. destruct H as [H|H].
+  - destruct r; [tauto|]. destruct H as [_ ->]. apply Hh. now left.
+  - apply adj_in in H. tauto.
+Qed.
+Lemma links_frame_head s s' l : forall a,
+  q_next s' a = q_next s a -> q_th s' a = q_th s a ->
+  (forall x, In x l -> same_at s s' x) -> links s a l -> links s' a l.
+Proof.
+  intros a Hn Ht Hs. destruct l as [|b r]; cbn.
+  - now rewrite Hn.
+  - intros (L & W & R). split; [|split].
+    + unfold link, pcq in *. destruct (Hs b (or_introl eq_refl)) as (B1 & B2 & B3). rewrite Hn, Ht, B3. exact L.
+    + apply (waiter_frame s); auto. apply Hs. now left.
+    + apply (links_frame s); auto.
+Qed.
+Lemma hd_In' (l : list nat) x : hd_error l = Some x -> In x l.
+Proof. destruct l; cbn; [discriminate|]. intros [= ->]. now left. Qed.
+
+Ltac keep s HI0 :=
+  apply (chain_keep s); [reflexivity|reflexivity| intros h r Ec Hh | intros x y Hxy L | intros y h r Ec Hy W
+                        | intros h r Ec Hn' | intros x Hx Ho | exact HI0].
+Ltac outcase Epc := exfalso; pcs Epc.
+Ltac headcase Epc Hh0 := exfalso; unfold head_ok, pcq in Hh0; rewrite Epc in Hh0; try exact Hh0; try tauto.
+
 Lemma qsl_inv_step s p fl : qsl_inv s -> qsl_inv (fst (qsl_step s p fl)).
 Proof.
   intros HI. pose proof (where_is s p HI) as HW. pose proof HI as HI0. destruct HI as (HC & HN & HO).
@@ -119,12 +145,11 @@ Proof.
   destruct pc; cbn [fst].
   - (* QXg *)
     destruct HW as [[Hout (On & Oi & Op)]|[(r & Ec & Hh & Hl)|(h & r & Ec & Hne & Hin & W & P)]].
-    2:{ exfalso. unfold head_ok, pcq in Hh. rewrite Epc in Hh. exact Hh. }
-    2:{ exfalso. pcs Epc. }
+    2:{ headcase Epc Hh. }
+    2:{ outcase Epc. }
     unfold qsl_inv, chain_ok in *. cbn [q_chain q_tail q_next q_got q_th].
     destruct (q_chain s) as [|h r] eqn:Ec.
-    + (* empty: p acquires *)
-      rewrite HC. cbn [app]. qd (q_th s p) true. split; [|split].
+    + rewrite HC. cbn [app]. qd (q_th s p) true. split; [|split].
       * split; [|split; [|reflexivity]].
         -- unfold head_ok, pcq, insq. cbn [q_th]. rewrite updn_eq. destruct Hd0 as [E|[[_ E]|[E _]]]; [rewrite E|rewrite E|discriminate]; exact Hd.
         -- cbn. exact On.
@@ -133,12 +158,12 @@ Proof.
         specialize (HO x (fun H => H)). unfold out_ok, pcq, insq in *. cbn [q_next q_th]. rewrite updn_neq by auto. exact HO.
     + destruct HC as (Hh & Hl & Ht). rewrite Ht. split; [|split].
       * change ((h :: r) ++ [p]) with (h :: (r ++ [p])). split; [|split].
-        -- (* head_ok: h <> p *)
-           assert (h <> p) by (intros ->; apply Hout; now left).
+        -- assert (h <> p) by (intros ->; apply Hout; now left).
            unfold head_ok, pcq, insq in *. cbn [q_th q_next q_got]. rewrite updn_neq by auto.
            destruct (t_pc (q_th s h)) as [[]|]; auto.
            ++ destruct Hh as (A & B & C). repeat split; auto. destruct r; cbn in *; auto; discriminate.
-           ++ destruct Hh as (A & B). repeat split; auto. destruct r; cbn in *; auto; discriminate.
+           ++ destruct Hh as (A & B & C & D). assert (n <> p) by (intros ->; apply Hout; right; apply hd_In'; exact B).
+              rewrite updn_neq by auto. repeat split; auto. destruct r; cbn in *; auto; discriminate.
         -- apply links_snoc.
            ++ apply (links_frame s); auto. intros x Hx. assert (x <> p) by (intros ->; apply Hout; exact Hx).
               unfold same_at. cbn [q_next q_got q_th]. rewrite updn_neq by auto. auto.
@@ -147,17 +172,71 @@ Proof.
            ++ unfold waiter_ok, pcq, insq. cbn [q_th q_got]. rewrite updn_eq. cbn. repeat split; auto; intros; discriminate.
            ++ cbn. exact On.
         -- f_equal. rewrite last_app_single. reflexivity.
-      * change ((h :: r) ++ [p]) with ((h :: r) ++ [p]). apply NoDup_snoc'; auto.
+      * apply NoDup_snoc'; auto.
       * intros x Hx. assert (x <> p) by (intros ->; apply Hx; apply in_or_app; right; now left).
         assert (~ In x (h :: r)) by (intros H1; apply Hx; apply in_or_app; now left).
         specialize (HO x H0). unfold out_ok, pcq, insq in *. cbn [q_next q_th]. rewrite updn_neq by auto. exact HO.
-  - admit.
-  - admit.
-  - admit.
-  - admit.
-  - admit.
-  - admit.
-  - admit.
-  - admit.
-  - admit.
+  - (* QStGot *)
+    keep s HI0.
+    all: destruct HW as [[Hout (On & Oi & Op)]|[(r0 & Ec0 & Hh0 & Hl0)|(h0 & r0 & Ec0 & Hne & Hin & W0 & P0)]].
+    all: solve_lk.
+  - (* QStNext *)
+    destruct HW as [[Hout (On & Oi & Op)]|[(r0 & Ec0 & Hh0 & Hl0)|(h0 & r0 & Ec0 & Hne & Hin & W0 & P0)]].
+    1:{ outcase Epc. }
+    1:{ headcase Epc Hh0. }
+    assert (HCl : links s h0 r0) by (unfold chain_ok in HC; rewrite Ec0 in HC; tauto).
+    destruct (adj_pred p r0 h0 Hin) as (a & Ha).
+    pose proof (links_adj s r0 h0 a p HCl Ha) as La.
+    assert (a = o /\ q_next s o = None) as [-> Hno].
+    { unfold link, pcq in La. rewrite Epc in La. destruct La as [[_ E]|[[E1 [E|E]]|[_ [_ E]]]]; try discriminate; injection E as <-; auto. }
+    rewrite <- Ec0 in Ha. pose proof (adj_in _ _ _ Ha) as [Hino Hinp].
+    keep s HI0.
+    + solve_lk.
+    + destruct (Nat.eq_dec x o) as [->|Hxo].
+      * assert (y = p) by (eapply adj_uniq; [exact HN|exact Hxy|exact Ha]). subst. solve_lk.
+      * destruct (Nat.eq_dec y p) as [->|Hyp]; [exfalso; apply Hxo; eapply adj_pred_uniq; [exact HN|exact Hxy|exact Ha]|].
+        solve_lk.
+    + solve_lk.
+    + cbn [q_next]. unfold updn. destruct (Nat.eqb_spec (last r h) o) as [E|E]; [|exact Hn'].
+      exfalso. rewrite Ec in *. apply (adj_not_last o p (h :: r) h HN Ha). rewrite last_cons. exact E.
+    + assert (x <> o) by (intros ->; tauto). solve_lk.
+  - (* QSpin *)
+    destruct HW as [[Hout (On & Oi & Op)]|[(r0 & Ec0 & Hh0 & Hl0)|(h0 & r0 & Ec0 & Hne & Hin & W0 & P0)]].
+    + outcase Epc.
+    + (* head: granted *)
+      unfold head_ok, pcq in Hh0. rewrite Epc in Hh0. destruct Hh0 as [Hi Hg]. rewrite Hg.
+      qd (q_th s p) true. keep s HI0.
+      * solve_lk; rewrite ?Hd in *; destruct Hd0 as [E|[[_ E]|[E _]]]; try discriminate; rewrite E; auto.
+      * assert (y <> p) by (intros ->; rewrite Ec0 in *; eapply adj_head; eauto). solve_lk; rewrite ?Hd in *;
+          destruct Hd0 as [E|[[_ E]|[E _]]]; try discriminate; rewrite ?E in *; intuition congruence.
+      * assert (y <> p) by (intros ->; rewrite Ec0 in *; injection Ec as -> ->; inversion HN; tauto). solve_lk.
+      * exact Hn'.
+      * assert (x <> p) by (intros ->; apply Hx; rewrite Ec0; now left). solve_lk.
+    + (* waiter: got = false *)
+      assert (Hg : q_got s p = false).
+      { destruct W0 as (_ & Hg & _). apply Hg. unfold pcq. exact Epc. }
+      rewrite Hg. keep s HI0; solve_lk.
+  - (* QTry *)
+    destruct HW as [[Hout (On & Oi & Op)]|[(r0 & Ec0 & Hh0 & Hl0)|(h0 & r0 & Ec0 & Hne & Hin & W0 & P0)]].
+    2:{ headcase Epc Hh0. }
+    2:{ outcase Epc. }
+    destruct (q_tail s) as [o|] eqn:Et; cbn [fst].
+    + qd (q_th s p) false. keep s HI0; solve_lk.
+      rewrite Hd. destruct Hd0 as [E|[[E _]|[_ [E|E]]]]; try discriminate; rewrite E; auto.
+    + assert (Ech : q_chain s = []).
+      { unfold chain_ok in HC. destruct (q_chain s); [reflexivity|]. destruct HC as (_ & _ & E). congruence. }
+      unfold qsl_inv, chain_ok. cbn [q_chain q_tail q_next q_got q_th]. rewrite Ech. cbn [app].
+      qd (q_th s p) true. split; [|split].
+      * split; [|split; [|reflexivity]].
+        -- unfold head_ok, pcq, insq. cbn [q_th]. rewrite updn_eq. destruct Hd0 as [E|[[_ E]|[E _]]]; [rewrite E|rewrite E|discriminate]; exact Hd.
+        -- cbn. exact On.
+      * constructor; [tauto|constructor].
+      * intros x Hx. assert (x <> p) by (intros ->; apply Hx; now left).
+        assert (~ In x (q_chain s)) by (rewrite Ech; tauto).
+        specialize (HO x H0). unfold out_ok, pcq, insq in *. cbn [q_next q_th]. rewrite updn_neq by auto. exact HO.
+  - (* QUld *) admit.
+  - (* QUld2 *) admit.
+  - (* QUstNext *) admit.
+  - (* QUstGot *) admit.
+  - (* QUcas *) admit.
 Admitted.
